@@ -152,6 +152,10 @@ class Folder:
                 st = f(node.slice.step) if node.slice.step else None
                 return self._apply(lambda b: b[lo:hi:st], base)
             idx = f(node.slice)
+            if isinstance(base, dict) and isinstance(idx, Ref):
+                if idx in base:
+                    return base[idx]
+                raise Unfoldable(f'key {idx!r} not in table')
             return self._apply(lambda b, i: b[i], base, idx)
         if isinstance(node, ast.Call):
             return self._call(node, m, env, self_class)
